@@ -1324,6 +1324,11 @@ func (s *Store) restoreDBFromBackup(ctx context.Context, name string) (newPos lt
 	}
 	defer func() { _ = rc.Close() }()
 
+	// The node may have lost its primary status while the snapshot was fetched.
+	if err := ctx.Err(); err != nil {
+		return ltx.Pos{}, fmt.Errorf("restore from backup: %w", err)
+	}
+
 	// Create the database if it doesn't exist.
 	db, err := s.CreateDBIfNotExists(name)
 	if err != nil {
@@ -1342,6 +1347,12 @@ func (s *Store) restoreDBFromBackup(ctx context.Context, name string) (newPos lt
 		return ltx.Pos{}, fmt.Errorf("acquire write lock: %s", err)
 	}
 	defer guard.Unlock()
+
+	// The lock is tried before the context is consulted, so check again that
+	// the node has not lost its primary status in the meantime.
+	if err := ctx.Err(); err != nil {
+		return ltx.Pos{}, fmt.Errorf("restore from backup: %w", err)
+	}
 
 	if err := db.recover(ctx); err != nil {
 		return ltx.Pos{}, fmt.Errorf("recover: %s", err)
